@@ -530,6 +530,19 @@ func translateApiVersions(fd *ast.FuncDecl) (prog string, errAfter bool, err err
 			if id, ok := s.Cond.(*ast.Ident); ok && id.Name == "verifOn" {
 				continue
 			}
+			// a sanity bound on the entry count (`if n < 0 || n > size/6 { return nil, fmt.Errorf(…) }`): a frame it
+			// rejects would fail in the loop as well (short read) or is a negative count (C20's subject, not modelled
+			// here); it must mention the count variable and return a non-kafka error
+			mentionsCount := false
+			ast.Inspect(s.Cond, func(n ast.Node) bool {
+				if e, ok := n.(ast.Expr); ok && countVars[exprString(e)] {
+					mentionsCount = true
+				}
+				return true
+			})
+			if mentionsCount && pendingCount && !bodyMakesError(s.Body) && containsCall(s.Body, "Errorf") {
+				continue
+			}
 			return "", false, fmt.Errorf("ApiVersions: untranslated if")
 		case *ast.ForStmt:
 			if !pendingCount {
